@@ -22,6 +22,8 @@ struct ObjView {
     /// sent more than once (transfer count > 1 or carousel): between two transfers it waits in the queue again, so
     /// it is left out of the clauses that reason on "first packet .. last packet"
     repeating: bool,
+    /// packet index at which remove_object was called for it (a removed object is no longer 'ready')
+    removed_at: Option<usize>,
 }
 
 fn judge(run: &ScriptRun, out: &mut Vec<Violation>) -> (u64, Vec<u64>) {
@@ -54,6 +56,7 @@ fn judge(run: &ScriptRun, out: &mut Vec<Violation>) -> (u64, Vec<u64>) {
             start: tr.first().map(|t| t.0),
             stop: tr.first().and_then(|t| t.1),
             repeating: o.max_transfer_count > 1 || o.carousel.is_some(),
+            removed_at: run.ops.iter().find(|x| matches!(x.op, Op::Remove(k) if k == i)).map(|x| x.pkt_index),
         });
     }
     let mux = |q: u32| run.spec.queues.iter().find(|x| x.0 == q).map(|x| x.1.max(1)).unwrap_or(1) as usize;
@@ -63,7 +66,7 @@ fn judge(run: &ScriptRun, out: &mut Vec<Violation>) -> (u64, Vec<u64>) {
     for a in &objs {
         for &n in &a.pkts {
             for b in &objs {
-                if b.queue < a.queue && !b.repeating && b.ready_from <= n && b.pkts.last().map(|l| *l > n).unwrap_or(true) && !p_reported {
+                if b.queue < a.queue && !b.repeating && b.removed_at.is_none() && b.ready_from <= n && b.pkts.last().map(|l| *l > n).unwrap_or(true) && !p_reported {
                     // b is ready (announced/added before n) and still has packets to send after n - or is never sent at all
                     out.push(base(Violation::new("priority_inversion", format!(
                         "packet {} belongs to TOI {} (queue {}) while TOI {} of the higher-priority queue {} was ready since index {} and still had packets to send ({})",
@@ -77,8 +80,16 @@ fn judge(run: &ScriptRun, out: &mut Vec<Violation>) -> (u64, Vec<u64>) {
     }
     // (F) FIFO admission inside a queue: first packets in add order (add order = object index order per queue here)
     let mut by_q: BTreeMap<u32, Vec<&ObjView>> = BTreeMap::new();
-    for o in objs.iter().filter(|o| !o.repeating) {
+    for o in objs.iter().filter(|o| !o.repeating && o.removed_at.is_none()) {
         by_q.entry(o.queue).or_default().push(o);
+    }
+    // an object that was made ready, was not removed, and is never transmitted although the run went on until the
+    // sender had nothing left to send (the packet budget was not exhausted)
+    if run.stream.len() < 19_000 {
+        if let Some(o) = objs.iter().find(|o| !o.repeating && o.removed_at.is_none() && o.ready_from != usize::MAX && o.pkts.is_empty()) {
+            out.push(base(Violation::new("ready_never_sent", format!("TOI {} (queue {}) was ready since packet index {} and was never transmitted ({} packets in the run)", o.toi, o.queue, o.ready_from, run.stream.len())))
+                .with("after_a_removal", objs.iter().any(|x| x.removed_at.is_some())).witness(wit(json!({"obj": o.i}))));
+        }
     }
     for (q, list) in &by_q {
         // an object that was made ready and never starts although one made ready after it, in the same queue, does
@@ -408,8 +419,25 @@ fn main() {
                     script.push((w, Op::Publish));
                 }
             }
+            // remove_object at an odd moment: one object in three workloads, at some packet index (often while it is
+            // being sent); what is left must still be served
+            let mut removal = false;
+            if !by_time && rng.chance(1, 3) {
+                let r = rng.below(objs.len() as u64) as usize;
+                let at = rng.range(0, pk as u64 + 12) as usize;
+                script.push((When::Packets(at), Op::Remove(r)));
+                if rng.chance(1, 2) {
+                    script.push((When::Packets(at), Op::Publish));
+                }
+                script.sort_by_key(|s| match s.0 {
+                    When::Start => 0,
+                    When::Packets(n) => 1 + n,
+                    When::TimeMs(_) => usize::MAX,
+                });
+                removal = true;
+            }
             let mut cr = CaseResult::default();
-            run_case_horizon(&spec, &objs, &script, &format!("q|{}|{}|{}|{}|{}", nq, nrep, nsingle, spec.full_fdt, by_time), 120, &mut cr);
+            run_case_horizon(&spec, &objs, &script, &format!("q|{}|{}|{}|{}|{}|{}", nq, nrep, nsingle, spec.full_fdt, by_time, removal), 120, &mut cr);
             cr
         }));
         gens
